@@ -1,20 +1,26 @@
 /* contracts/relay.h -- tools/xcmrelay/xrelay.c (C20: xcmrelay is transparent).
  *
  * One `struct xfwd` is one DIRECTION of a relay: it holds at most one message (or run of bytes) in data[0..data_len)
- * received from its source leg and not yet accepted by its destination leg.  The public XCM API and libevent are
- * env/relay_env.h (TRUSTED).  Attached to the REAL static functions by redeclaration after the TU has been #included.
+ * received from its source leg and not yet accepted by its destination leg.  The public XCM API, libevent, memmove and
+ * the relay's user (termination callbacks) are env/relay_env.h (TRUSTED).  Contracts are attached to the REAL static
+ * functions by redeclaration after the TU has been #included.
  *
- * Vocabulary (all in terms of the ghost leg table, i.e. of what the XCM sockets were really told):
- *   XS / XD          index of the source / destination leg of the direction under proof (xv_src: any of 0, 1)
+ * Vocabulary (all in terms of the ghost state of env/relay_env.h, i.e. of what the XCM sockets were really told):
+ *   XS / XD          index of the source / destination leg of the direction under proof (xv_src: 0 or 1)
  *   XF_AWAIT_IN      source leg awaits RECEIVABLE, destination leg does not await SENDABLE
  *   XF_AWAIT_OUT     destination leg awaits SENDABLE, source leg does not await RECEIVABLE
- *   XF_INTEREST(r)   data_len == 0 <=> XF_AWAIT_IN,  data_len > 0 <=> XF_AWAIT_OUT          (interest invariant)
+ *   XF_INTEREST(r)   data_len == 0 <=> XF_AWAIT_IN,  data_len > 0 <=> XF_AWAIT_OUT             (interest invariant)
  *   XF_MIRROR(r)     the two condition words the xfwd points to equal what the two sockets await
  *   XF_OTHER_KEPT    every bit that belongs to the OTHER direction (SENDABLE on the source leg, RECEIVABLE on the
  *                    destination leg -- and any further bit) is what it was on entry
- * The xfwd-level contracts take the two condition words as separate objects holding ARBITRARY values in the other
- * direction's bits, so each is proved for every state of the other direction; jobs relay.xrelay_* and relay.pair_step
- * re-check on the real embedding (struct xrelay: fwd0.src_condition == fwd1.dst_condition == &cond0).
+ *   XF_STREAM(r)     content accounting: of the source's byte stream S, [0, tx_off) has been accepted by the destination,
+ *                    [tx_off, rx_off) has been received and is HELD: rx_off - tx_off == data_len, and when something is
+ *                    held the hold buffer starts with S[tx_off ...) (hold_off == tx_off, at least data_len valid bytes).
+ *                    Nothing received is ever outside "forwarded" + "held": nothing lost, nothing duplicated, in order.
+ * The other direction's bits in the two condition words are ARBITRARY in every xfwd-level job, so each contract is proved
+ * for every state of the other direction.  The objects are supplied by the harness (XV_RELAY_SETUP, harness/relay/_unit.h):
+ * a malloc'ed `struct xrelay` of arbitrary content whose fwd0 / fwd1 (variants d0 / d1) is the xfwd under proof, wired the
+ * way xrelay_create() wires it (job relay.xrelay_create).
  */
 #ifndef XV_RELAY_H
 #define XV_RELAY_H
@@ -26,11 +32,12 @@
 #define XS xv_src
 #define XD (1 - xv_src)
 
-/* ghost constants (never assigned): bytes of data[] at the ghost indices xv_j, xv_k on entry */
-char xv_g_dj, xv_g_dk;
-
 /* ---- shape ---------------------------------------------------------------------------------------------------------- */
-/* the direction's two legs are the two sockets of the table, crosswise; its callback is the caller's (env) */
+#define XF_FRESH(r) (__CPROVER_rw_ok((r), sizeof(struct xfwd)) && xv_hold_buf == (void *)(r)->data)
+#define XF_CONDS_FRESH(r) (__CPROVER_rw_ok((r)->src_condition, sizeof(int)) && __CPROVER_rw_ok((r)->dst_condition, sizeof(int)) && \
+                           (r)->src_condition != (r)->dst_condition)
+/* the direction's two legs are the two sockets of the table, crosswise; its callback is the caller's (env), which may
+ * destroy the object it is given */
 #define XF_WIRED(r) ((xv_src == 0 || xv_src == 1) && (r)->src_conn == XV_CONN(XS) && (r)->dst_conn == XV_CONN(XD) && \
                      (r)->err_cb == xv_fwd_cb && (xv_cb_frees ==> __CPROVER_is_freeable((r)->err_cb_data)))
 /* both sockets are open, non-blocking connection sockets with their own descriptor; the relay has not been terminated */
@@ -49,52 +56,49 @@ char xv_g_dj, xv_g_dk;
 #define XF_INTEREST(r) (XF_LEN_OK(r) && ((r)->data_len == 0 ? XF_AWAIT_IN : XF_AWAIT_OUT))
 #define XF_OTHER_KEPT ((xv_legs[XS].cond & ~XR_R) == (__CPROVER_old(xv_legs[XS].cond) & ~XR_R) && \
                        (xv_legs[XD].cond & ~XR_S) == (__CPROVER_old(xv_legs[XD].cond) & ~XR_S))
-#define XF_COND_SAME (xv_legs[0].cond == __CPROVER_old(xv_legs[0].cond) && xv_legs[1].cond == __CPROVER_old(xv_legs[1].cond) && \
-                      xv_aw_calls == __CPROVER_old(xv_aw_calls))
+#define XF_SAME(x) ((x) == __CPROVER_old(x))
+#define XF_COND_SAME (XF_SAME(xv_legs[0].cond) && XF_SAME(xv_legs[1].cond) && XF_SAME(xv_aw_calls))
+
+/* content accounting (see env/relay_env.h: message content is abstract) */
+/* offsets are assumed < 2^50 on entry of a step (a connection cannot move a PiB); a step adds at most one buffer */
+#define XV_OFFS_LIM(lim) (xv_tx_off >= 0 && xv_tx_off <= xv_rx_off && xv_rx_off < (lim))
+#define XF_STREAM_LIM(r, lim) (XV_OFFS_LIM(lim) && xv_rx_off - xv_tx_off == (long)(r)->data_len && \
+                      ((r)->data_len > 0 ==> (xv_hold_off == xv_tx_off && xv_hold_len >= (long)(r)->data_len)))
+#define XF_STREAM(r) XF_STREAM_LIM(r, XV_OFF_MAX)                    /* entry */
+#define XF_STREAM_OUT(r) XF_STREAM_LIM(r, XV_OFF_MAX + (1L << 16))   /* exit  */
+#define XF_STREAM_SAME (XF_SAME(xv_rx_off) && XF_SAME(xv_tx_off) && XF_SAME(xv_hold_off) && XF_SAME(xv_hold_len) && XF_SAME(xv_mm_calls))
 
 /* libevent registration of a running direction: both events pending, on the two legs' descriptors, for reading,
  * persistent, dispatching to xfwd_active with this xfwd */
-#define XF_EV1_OK(r, e, leg) ((XV_EV_FLAGS(&(r)->e) & (EVLIST_INIT | EVLIST_INSERTED)) == (EVLIST_INIT | EVLIST_INSERTED) && \
-                              (r)->e.ev_fd == xv_legs[leg].fd && (r)->e.ev_events == (EV_READ | EV_PERSIST) && \
-                              XV_EV_CB(&(r)->e) == xfwd_active && XV_EV_ARG(&(r)->e) == (void *)(r) && (r)->e.ev_base == (r)->event_base)
+#define XF_EV1_SET(r, e, leg) ((r)->e.ev_fd == xv_legs[leg].fd && (r)->e.ev_events == (EV_READ | EV_PERSIST) && \
+                               XV_EV_CB(&(r)->e) == xfwd_active && XV_EV_ARG(&(r)->e) == (void *)(r) && (r)->e.ev_base == (r)->event_base && \
+                               (XV_EV_FLAGS(&(r)->e) & EVLIST_INIT) != 0)
+#define XF_EV1_OK(r, e, leg) (XF_EV1_SET(r, e, leg) && (XV_EV_FLAGS(&(r)->e) & EVLIST_INSERTED) != 0)
 #define XF_EV_OK(r) (XF_EV1_OK(r, src_event, XS) && XF_EV1_OK(r, dst_event, XD))
 #define XF_EV_OFF(r) ((XV_EV_FLAGS(&(r)->src_event) & EVLIST_INSERTED) == 0 && (XV_EV_FLAGS(&(r)->dst_event) & EVLIST_INSERTED) == 0)
-
-/* what a running direction looks like between two steps */
-#define XF_RUNNING_INV(r) ((r)->running && XF_EV_OK(r) && XF_INTEREST(r) && XF_MIRROR(r) && xv_ev_pending >= 2)
-
-/* The objects are supplied by the harness (XV_RELAY_SETUP in harness/relay/_unit.h): a malloc'ed `struct xrelay`, the xfwd
- * under proof being its fwd0 or fwd1 and the two condition words its cond0/cond1 -- the embedding xrelay_create() builds
- * (job relay.xrelay_create) -- with ARBITRARY content.  The harness also points the ghost xv_own_data at the xfwd's hold
- * buffer, through which the environment observes bytes (a `char (*)[65535]`: an access through a void pointer at a ghost
- * offset into a 66 KB struct costs CBMC a 66K-way multiplexer over the whole struct, twice). */
-#define XF_FRESH(r) (__CPROVER_rw_ok((r), sizeof(struct xfwd)) && xv_own_data == &(r)->data)
-#define XF_CONDS_FRESH(r) (__CPROVER_rw_ok((r)->src_condition, sizeof(int)) && __CPROVER_rw_ok((r)->dst_condition, sizeof(int)) && \
-                           (r)->src_condition != (r)->dst_condition)
-
-/* data[] content bound to the ghost constants on entry, for the two ghost indices */
-#define XF_BIND(r) ((xv_j >= 0 && xv_j < (long)(r)->data_len) ==> (r)->data[xv_j] == xv_g_dj) && \
-                   ((xv_k >= 0 && xv_k < (long)(r)->data_len) ==> (r)->data[xv_k] == xv_g_dk)
+#define XF_EV_SAME(r) (XF_SAME(XV_EV_FLAGS(&(r)->src_event)) && XF_SAME(XV_EV_FLAGS(&(r)->dst_event)) && XF_SAME(xv_ev_pending))
 
 /* assigns fragments */
 #define XF_COND_ASSIGNS(r) *(r)->src_condition, *(r)->dst_condition, xv_legs[0].cond, xv_legs[1].cond, xv_aw_calls
 #define XF_CB_ASSIGNS xv_fcb_calls, xv_fcb_reason, xv_fcb_msg, xv_fcb_data, xv_terminated
-#define XF_RCV_ASSIGNS xv_rcv_calls, xv_rcv_conn, xv_rcv_buf, xv_rcv_cap, xv_rcv_ret, xv_rcv_errno, xv_rcv_c
-#define XF_SND_ASSIGNS xv_snd_calls, xv_snd_conn, xv_snd_buf, xv_snd_len, xv_snd_ret, xv_snd_errno, xv_snd_c, \
-                       xv_legs[0].pending_out, xv_legs[1].pending_out
+#define XF_RCV_ASSIGNS xv_rcv_calls, xv_rcv_conn, xv_rcv_buf, xv_rcv_cap, xv_rcv_ret, xv_rcv_errno, xv_rx_off, xv_rx_eof, xv_hold_off, xv_hold_len
+#define XF_SND_ASSIGNS xv_snd_calls, xv_snd_conn, xv_snd_buf, xv_snd_len, xv_snd_ret, xv_snd_errno, xv_snd_off, xv_tx_off, \
+                       xv_legs[0].pending_out, xv_legs[1].pending_out, xv_mm_calls, xv_mm_n, xv_hold_off, xv_hold_len
 #define XF_FIN_ASSIGNS xv_fin_calls, xv_fin_conn, xv_fin_ret, xv_fin_errno, xv_legs[0].pending_out, xv_legs[1].pending_out
 
-#define XF_NO_CB (xv_fcb_calls == __CPROVER_old(xv_fcb_calls) && !xv_terminated)
-/* terminated through the callback: exactly one call, with the reason and the caller's cookie; an error carries a text */
+#define XF_NO_CB (XF_SAME(xv_fcb_calls) && !xv_terminated)
+/* terminated through the callback: exactly one call, with the reason and the caller's cookie */
 #define XF_CB_ONCE(r, reason) (xv_fcb_calls == __CPROVER_old(xv_fcb_calls) + 1 && xv_fcb_reason == (reason) && \
                                xv_fcb_data == __CPROVER_old((r)->err_cb_data) && xv_terminated)
-#define XF_SAME(x) ((x) == __CPROVER_old(x))
 
 /* ==== xfwd_handle_term / xfwd_handle_err ============================================================================== */
 /* The only two places where the caller's callback is invoked.  CBMC resolves `relay->err_cb(...)` to every address-taken
- * function of a compatible type (xfwd_active among them: recursion), so the other jobs REPLACE these two one-liners by
- * their contracts and jobs relay.xfwd_handle_term / relay.xfwd_handle_err prove the contracts on the real bodies. */
-#define XF_CB_REQUIRES(r) (XF_FRESH(r) && (r)->err_cb == xv_fwd_cb && (xv_cb_frees ==> __CPROVER_is_freeable((r)->err_cb_data)) && XV_RCNT_OK(xv_fcb_calls))
+ * function of a compatible type (xfwd_active among them: unbounded recursion), so the other jobs REPLACE these two
+ * one-liners by their contracts and jobs relay.xfwd_handle_term / relay.xfwd_handle_err prove the contracts on the real
+ * bodies.  `frees`: the callback may destroy the relay (rserver.c does); a replaced call frees it nondeterministically,
+ * so any later access by the caller is a failed pointer check ("not used afterwards"). */
+#define XF_CB_REQUIRES(r) (__CPROVER_rw_ok((r), sizeof(struct xfwd)) && (r)->err_cb == xv_fwd_cb && \
+                           (xv_cb_frees ==> __CPROVER_is_freeable((r)->err_cb_data)) && XV_RCNT_OK(xv_fcb_calls))
 static void xfwd_handle_term(struct xfwd *relay)
 __CPROVER_requires(XF_CB_REQUIRES(relay))
 __CPROVER_assigns(XF_CB_ASSIGNS)
@@ -111,9 +115,10 @@ __CPROVER_ensures(XF_CB_ONCE(relay, -1) && xv_fcb_msg == msg)
 ;
 
 /* ==== xfwd_await_input / xfwd_await_output ============================================================================ */
+#define XF_BASE_REQUIRES(r) (XF_WIRED(r) && XV_LEGS_LIVE && XV_COND_VALID && XF_MIRROR(r) && XV_RELAY_GHOST_RANGE)
 static void xfwd_await_input(struct xfwd *relay)
 __CPROVER_requires(XF_FRESH(relay) && XF_CONDS_FRESH(relay))
-__CPROVER_requires(XF_WIRED(relay) && XV_LEGS_LIVE && XV_COND_VALID && XF_MIRROR(relay) && XV_RELAY_GHOST_RANGE)
+__CPROVER_requires(XF_BASE_REQUIRES(relay))
 /* frame: the two condition words and what the two sockets await; NOT data, data_len, running, the events, errno */
 __CPROVER_assigns(XF_COND_ASSIGNS(relay))
 /* PO[C20] xfwd_await_input.interest */
@@ -125,7 +130,7 @@ __CPROVER_ensures(xv_aw_calls == __CPROVER_old(xv_aw_calls) + 2 && XV_COND_VALID
 
 static void xfwd_await_output(struct xfwd *relay)
 __CPROVER_requires(XF_FRESH(relay) && XF_CONDS_FRESH(relay))
-__CPROVER_requires(XF_WIRED(relay) && XV_LEGS_LIVE && XV_COND_VALID && XF_MIRROR(relay) && XV_RELAY_GHOST_RANGE)
+__CPROVER_requires(XF_BASE_REQUIRES(relay))
 __CPROVER_assigns(XF_COND_ASSIGNS(relay))
 /* PO[C20] xfwd_await_output.interest */
 __CPROVER_ensures(XF_AWAIT_OUT && XF_MIRROR(relay))
@@ -141,33 +146,36 @@ __CPROVER_ensures(xv_aw_calls == __CPROVER_old(xv_aw_calls) + 2 && XV_COND_VALID
 #define RCV_EOF   (xv_rcv_ret == 0)
 #define RCV_ERR   (xv_rcv_ret == -1 && xv_rcv_errno != EAGAIN)
 
-#define XF_RECEIVE_ENSURES(r) \
-    /* hold-one: exactly one xcm_receive, on the source leg, into the xfwd's own buffer, offering its full capacity; nothing sent, nothing finished */ \
+/* hold-one: exactly one xcm_receive, on the source leg, into the xfwd's own buffer, offering its full capacity; nothing
+ * sent, nothing finished, nothing moved */
+#define XF_RECEIVE_ONE(r) \
     (xv_rcv_calls == __CPROVER_old(xv_rcv_calls) + 1 && xv_rcv_conn == XV_CONN(XS) && xv_rcv_buf == (void *)(r)->data && \
-     xv_rcv_cap == XR_DATA_CAP && XF_SAME(xv_snd_calls) && XF_SAME(xv_fin_calls))
+     xv_rcv_cap == XR_DATA_CAP && XF_SAME(xv_snd_calls) && XF_SAME(xv_fin_calls) && XF_SAME(xv_mm_calls) && XF_SAME(xv_tx_off))
+/* what was received is what is held: its length; the hold buffer starts with the bytes just delivered; nothing reported */
 #define XF_RECEIVE_GOT(r) \
-    /* what was received is what is held, unmodified: length and every byte (xv_j) */ \
-    (RCV_GOT ==> (XF_NO_CB && (r)->data_len == xv_rcv_ret && (r)->data_len <= XR_DATA_CAP && \
-                  ((xv_j >= 0 && xv_j < (long)xv_rcv_ret) ==> (r)->data[xv_j] == xv_rcv_c)))
+    (RCV_GOT ==> (XF_NO_CB && (r)->data_len == xv_rcv_ret && xv_rx_off == __CPROVER_old(xv_rx_off) + (long)xv_rcv_ret && \
+                  xv_hold_off == __CPROVER_old(xv_rx_off) && XF_STREAM_OUT(r)))
 #define XF_RECEIVE_GOT_INTEREST(r) \
     (RCV_GOT ==> (XF_AWAIT_OUT && XF_MIRROR(r) && XV_COND_VALID && xv_aw_calls == __CPROVER_old(xv_aw_calls) + 2))
+/* nothing there yet: still empty, still awaiting input, nothing reported */
 #define XF_RECEIVE_AGAIN(r) \
-    /* nothing there yet: still empty, still awaiting input, nothing reported */ \
-    (RCV_AGAIN ==> (XF_NO_CB && (r)->data_len == 0 && XF_COND_SAME && XF_SAME(*(r)->src_condition) && XF_SAME(*(r)->dst_condition)))
+    (RCV_AGAIN ==> (XF_NO_CB && (r)->data_len == 0 && XF_COND_SAME && XF_SAME(*(r)->src_condition) && XF_SAME(*(r)->dst_condition) && \
+                    XF_STREAM_SAME))
+/* peer closed: terminated (reason 0, no text); fatal error: terminated (reason -1, a text); once; nothing done afterwards */
 #define XF_RECEIVE_TERM(r) \
-    /* peer closed: terminated (reason 0, no text); fatal error: terminated (reason -1, a text); once; nothing is done afterwards */ \
     ((RCV_EOF ==> (XF_CB_ONCE(r, 0) && xv_fcb_msg == NULL)) && (RCV_ERR ==> (XF_CB_ONCE(r, -1) && xv_fcb_msg != NULL)) && \
-     ((RCV_EOF || RCV_ERR) ==> XF_COND_SAME))
+     ((RCV_EOF || RCV_ERR) ==> (XF_COND_SAME && XF_STREAM_SAME)))
 
 static void xfwd_receive(struct xfwd *relay)
 __CPROVER_requires(XF_FRESH(relay) && XF_CONDS_FRESH(relay))
-__CPROVER_requires(XF_WIRED(relay) && XV_LEGS_LIVE && XV_COND_VALID && XF_MIRROR(relay) && XV_RELAY_GHOST_RANGE)
+__CPROVER_requires(XF_BASE_REQUIRES(relay))
 /* called only when nothing is held (see xfwd_active.dispatch) */
-__CPROVER_requires(relay->data_len == 0 && XF_INTEREST(relay))
-__CPROVER_assigns(xv_errno, XF_RCV_ASSIGNS, XF_CB_ASSIGNS, XF_COND_ASSIGNS(relay), relay->data_len, __CPROVER_object_upto(relay->data, XR_DATA_CAP))
+__CPROVER_requires(relay->data_len == 0 && XF_INTEREST(relay) && XF_STREAM(relay))
+/* frame: NOT data[] (the environment's stores are abstract: any store of xrelay.c into the buffer fails here) */
+__CPROVER_assigns(xv_errno, XF_RCV_ASSIGNS, XF_CB_ASSIGNS, XF_COND_ASSIGNS(relay), relay->data_len)
 __CPROVER_frees(relay->err_cb_data)
 /* PO[C20] xfwd_receive.hold_one */
-__CPROVER_ensures(XF_RECEIVE_ENSURES(relay))
+__CPROVER_ensures(XF_RECEIVE_ONE(relay))
 /* PO[C20] xfwd_receive.held_as_received */
 __CPROVER_ensures(XF_RECEIVE_GOT(relay))
 /* PO[C20] xfwd_receive.interest_switched_to_output */
@@ -181,53 +189,135 @@ __CPROVER_ensures(XF_RECEIVE_TERM(relay))
 ;
 
 /* ==== xfwd_send ======================================================================================================= */
-#define SND_OLDLEN __CPROVER_old((relay)->data_len)
 #define SND_AGAIN (xv_snd_ret == -1 && xv_snd_errno == EAGAIN)
 #define SND_GONE  (xv_snd_ret == -1 && (xv_snd_errno == EPIPE || xv_snd_errno == ECONNRESET))
 #define SND_ERR   (xv_snd_ret == -1 && xv_snd_errno != EAGAIN && xv_snd_errno != EPIPE && xv_snd_errno != ECONNRESET)
 
-#define XF_SEND_ENSURES(r, oldlen) \
-    /* hold-one: exactly one xcm_send, on the destination leg, of exactly (data, data_len) as held; every byte (xv_j) as held; nothing received, nothing finished */ \
+/* hold-one: exactly one xcm_send, on the destination leg, of exactly (data, data_len): the bytes received and not yet
+ * forwarded -- stream positions [tx_off, rx_off) as they were on entry; nothing received, nothing finished */
+#define XF_SEND_ONE(r, oldlen) \
     (xv_snd_calls == __CPROVER_old(xv_snd_calls) + 1 && xv_snd_conn == XV_CONN(XD) && xv_snd_buf == (const void *)(r)->data && \
-     xv_snd_len == (size_t)(oldlen) && ((xv_j >= 0 && xv_j < (long)(oldlen)) ==> xv_snd_c == xv_g_dj) && \
-     XF_SAME(xv_rcv_calls) && XF_SAME(xv_fin_calls))
+     xv_snd_len == (size_t)(oldlen) && xv_snd_off == __CPROVER_old(xv_tx_off) && xv_snd_off + (long)xv_snd_len == xv_rx_off && \
+     XF_SAME(xv_rcv_calls) && XF_SAME(xv_fin_calls) && XF_SAME(xv_rx_off))
+/* messaging: accepted => forwarded exactly once: nothing is held any more, everything received has been accepted, input is awaited again */
 #define XF_SEND_MSG(r) \
-    /* messaging: accepted => forwarded exactly once: nothing is held any more, input is awaited again */ \
-    (xv_snd_ret == 0 ==> (XF_NO_CB && (r)->data_len == 0 && XF_AWAIT_IN && XF_MIRROR(r) && XV_COND_VALID))
+    (xv_snd_ret == 0 ==> (XF_NO_CB && (r)->data_len == 0 && xv_tx_off == xv_rx_off && XF_SAME(xv_mm_calls) && \
+                          XF_AWAIT_IN && XF_MIRROR(r) && XV_COND_VALID && xv_aw_calls == __CPROVER_old(xv_aw_calls) + 2))
+/* back-pressure: nothing dropped, nothing duplicated: what is held, where it is and the interest are what they were */
 #define XF_SEND_AGAIN(r, oldlen) \
-    /* back-pressure: nothing dropped, nothing duplicated: length, bytes and interest are what they were */ \
-    (SND_AGAIN ==> (XF_NO_CB && (r)->data_len == (oldlen) && ((xv_j >= 0 && xv_j < (long)(oldlen)) ==> (r)->data[xv_j] == xv_g_dj) && \
+    (SND_AGAIN ==> (XF_NO_CB && (r)->data_len == (oldlen) && XF_STREAM_SAME && \
                     XF_COND_SAME && XF_SAME(*(r)->src_condition) && XF_SAME(*(r)->dst_condition)))
+/* byte stream: r bytes accepted => what is held are the old bytes [r, len), in order, at the start of the buffer (moved
+ * there by one memmove of exactly that many bytes); all accepted => nothing moved, input awaited again */
 #define XF_SEND_STREAM(r, oldlen) \
-    /* byte stream: r bytes accepted => what is held are the old bytes [r, len) in order; all accepted => input awaited again */ \
     (xv_snd_ret > 0 ==> (XF_NO_CB && (r)->data_len == (oldlen) - xv_snd_ret && (r)->data_len >= 0 && \
-                         ((xv_j >= 0 && xv_j < (long)(r)->data_len && xv_k == xv_j + (long)xv_snd_ret) ==> (r)->data[xv_j] == xv_g_dk) && \
-                         ((r)->data_len == 0 ? (XF_AWAIT_IN && xv_aw_calls == __CPROVER_old(xv_aw_calls) + 2) : XF_COND_SAME) && XF_MIRROR(r) && XV_COND_VALID))
+                         xv_tx_off == __CPROVER_old(xv_tx_off) + (long)xv_snd_ret && XF_STREAM_OUT(r) && \
+                         ((r)->data_len == 0 ? (XF_AWAIT_IN && xv_aw_calls == __CPROVER_old(xv_aw_calls) + 2 && XF_SAME(xv_mm_calls)) \
+                                             : (XF_COND_SAME && xv_mm_calls == __CPROVER_old(xv_mm_calls) + 1 && xv_mm_n == (size_t)(r)->data_len)) && \
+                         XF_MIRROR(r) && XV_COND_VALID))
 #define XF_SEND_TERM(r) \
     ((SND_GONE ==> (XF_CB_ONCE(r, 0) && xv_fcb_msg == NULL)) && (SND_ERR ==> (XF_CB_ONCE(r, -1) && xv_fcb_msg != NULL)) && \
-     ((SND_GONE || SND_ERR) ==> XF_COND_SAME))
+     ((SND_GONE || SND_ERR) ==> (XF_COND_SAME && XF_STREAM_SAME)))
 
 static void xfwd_send(struct xfwd *relay)
 __CPROVER_requires(XF_FRESH(relay) && XF_CONDS_FRESH(relay))
-__CPROVER_requires(XF_WIRED(relay) && XV_LEGS_LIVE && XV_COND_VALID && XF_MIRROR(relay) && XV_RELAY_GHOST_RANGE)
+__CPROVER_requires(XF_BASE_REQUIRES(relay))
 /* called only when something is held (see xfwd_active.dispatch) */
-__CPROVER_requires(relay->data_len >= 1 && XF_INTEREST(relay))
-/* the one offset at which the memmove model (env/relay_env.h) is exact is the ghost index the stream obligation talks about */
-__CPROVER_requires(XF_BIND(relay) && (xv_j >= 0 ==> xv_mc == (size_t)xv_j))
-__CPROVER_assigns(xv_errno, XF_SND_ASSIGNS, XF_CB_ASSIGNS, XF_COND_ASSIGNS(relay), relay->data_len, __CPROVER_object_upto(relay->data, XR_DATA_CAP))
+__CPROVER_requires(relay->data_len >= 1 && XF_INTEREST(relay) && XF_STREAM(relay))
+__CPROVER_assigns(xv_errno, XF_SND_ASSIGNS, XF_CB_ASSIGNS, XF_COND_ASSIGNS(relay), relay->data_len)
 __CPROVER_frees(relay->err_cb_data)
 /* PO[C20] xfwd_send.hold_one */
-__CPROVER_ensures(XF_SEND_ENSURES(relay, SND_OLDLEN))
+__CPROVER_ensures(XF_SEND_ONE(relay, __CPROVER_old(relay->data_len)))
 /* PO[C20] xfwd_send.message_forwarded_once */
 __CPROVER_ensures(XF_SEND_MSG(relay))
 /* PO[C20] xfwd_send.eagain_keeps_message */
-__CPROVER_ensures(XF_SEND_AGAIN(relay, SND_OLDLEN))
+__CPROVER_ensures(XF_SEND_AGAIN(relay, __CPROVER_old(relay->data_len)))
 /* PO[C20] xfwd_send.stream_remainder_in_order */
-__CPROVER_ensures(XF_SEND_STREAM(relay, SND_OLDLEN))
+__CPROVER_ensures(XF_SEND_STREAM(relay, __CPROVER_old(relay->data_len)))
 /* PO[C20] xfwd_send.other_direction_kept */
 __CPROVER_ensures(XF_OTHER_KEPT)
 /* PO[C20] xfwd_send.close_and_error_terminate */
 __CPROVER_ensures(XF_SEND_TERM(relay))
+;
+
+/* ==== xfwd_active ===================================================================================================== */
+/* the libevent callback: one step of a running direction, on activity of either leg's descriptor */
+#define XA(arg) ((struct xfwd *)(arg))
+#define XA_IDLE(len) ((len) == 0)
+#define XA_ON_SRC (fd == xv_legs[XS].fd)
+/* what a running direction looks like between two steps */
+#define XF_RUNNING_INV(r) ((r)->running && XF_EV_OK(r) && XF_INTEREST(r) && XF_MIRROR(r) && xv_ev_pending >= 2)
+
+static void xfwd_active(int fd, short ev, void *arg)
+__CPROVER_requires(XF_FRESH(XA(arg)) && XF_CONDS_FRESH(XA(arg)))
+__CPROVER_requires(XF_BASE_REQUIRES(XA(arg)))
+__CPROVER_requires(XF_RUNNING_INV(XA(arg)) && XF_STREAM(XA(arg)))
+/* libevent calls back for the two registered descriptors only */
+__CPROVER_requires(fd == xv_legs[0].fd || fd == xv_legs[1].fd)
+__CPROVER_assigns(xv_errno, XF_RCV_ASSIGNS, XF_SND_ASSIGNS, XF_FIN_ASSIGNS, XF_CB_ASSIGNS, XF_COND_ASSIGNS(XA(arg)), XA(arg)->data_len)
+__CPROVER_frees(XA(arg)->err_cb_data)
+/* PO[C20] xfwd_active.dispatch: exactly ONE XCM operation per step: receive (source active, nothing held), send (destination active, something held), else xcm_finish on the socket that is not operated */
+__CPROVER_ensures(XA_IDLE(__CPROVER_old(XA(arg)->data_len)) \
+    ? (XA_ON_SRC ? (xv_rcv_calls == __CPROVER_old(xv_rcv_calls) + 1 && XF_SAME(xv_snd_calls) && XF_SAME(xv_fin_calls)) \
+                 : (xv_fin_calls == __CPROVER_old(xv_fin_calls) + 1 && xv_fin_conn == XV_CONN(XD) && XF_SAME(xv_rcv_calls) && XF_SAME(xv_snd_calls))) \
+    : (!XA_ON_SRC ? (xv_snd_calls == __CPROVER_old(xv_snd_calls) + 1 && XF_SAME(xv_rcv_calls) && XF_SAME(xv_fin_calls)) \
+                  : (xv_fin_calls == __CPROVER_old(xv_fin_calls) + 1 && xv_fin_conn == XV_CONN(XS) && XF_SAME(xv_rcv_calls) && XF_SAME(xv_snd_calls))))
+/* PO[C20] xfwd_active.invariant_kept: unless terminated, the direction is as consistent after the step as before */
+__CPROVER_ensures(XF_NO_CB ==> (XF_RUNNING_INV(XA(arg)) && XF_STREAM_OUT(XA(arg)) && XV_COND_VALID && XF_EV_SAME(XA(arg))))
+/* PO[C20] xfwd_active.other_direction_kept */
+__CPROVER_ensures(XF_OTHER_KEPT)
+/* PO[C20] xfwd_active.receive_hold_one */
+__CPROVER_ensures(xv_rcv_calls != __CPROVER_old(xv_rcv_calls) ==> XF_RECEIVE_ONE(XA(arg)))
+/* PO[C20] xfwd_active.receive_held_as_received */
+__CPROVER_ensures(xv_rcv_calls != __CPROVER_old(xv_rcv_calls) ==> (XF_RECEIVE_GOT(XA(arg)) && XF_RECEIVE_GOT_INTEREST(XA(arg)) && XF_RECEIVE_AGAIN(XA(arg))))
+/* PO[C20] xfwd_active.receive_close_and_error_terminate */
+__CPROVER_ensures(xv_rcv_calls != __CPROVER_old(xv_rcv_calls) ==> XF_RECEIVE_TERM(XA(arg)))
+/* PO[C20] xfwd_active.send_hold_one */
+__CPROVER_ensures(xv_snd_calls != __CPROVER_old(xv_snd_calls) ==> XF_SEND_ONE(XA(arg), __CPROVER_old(XA(arg)->data_len)))
+/* PO[C20] xfwd_active.send_forwarded_once_or_kept */
+__CPROVER_ensures(xv_snd_calls != __CPROVER_old(xv_snd_calls) ==> (XF_SEND_MSG(XA(arg)) && XF_SEND_AGAIN(XA(arg), __CPROVER_old(XA(arg)->data_len)) && \
+                                                                    XF_SEND_STREAM(XA(arg), __CPROVER_old(XA(arg)->data_len))))
+/* PO[C20] xfwd_active.send_close_and_error_terminate */
+__CPROVER_ensures(xv_snd_calls != __CPROVER_old(xv_snd_calls) ==> XF_SEND_TERM(XA(arg)))
+/* PO[C20] xfwd_active.finish_only: a step that only finishes work changes nothing; a fatal xcm_finish error terminates (reason -1), EAGAIN and success do not */
+__CPROVER_ensures(xv_fin_calls != __CPROVER_old(xv_fin_calls) ==> (XF_COND_SAME && XF_STREAM_SAME && \
+        ((xv_fin_ret == -1 && xv_fin_errno != EAGAIN) ? (XF_CB_ONCE(XA(arg), -1) && xv_fcb_msg == NULL) \
+                                                       : (XF_NO_CB && XF_SAME(XA(arg)->data_len)))))
+;
+
+/* ==== xfwd_start / xfwd_stop ========================================================================================== */
+/* a stopped direction has no pending event; a running one is registered (XF_EV_OK) */
+static int xfwd_start(struct xfwd *relay)
+__CPROVER_requires(XF_FRESH(relay) && XF_CONDS_FRESH(relay))
+/* the legs may still be in blocking mode (as accepted / connected); nothing else is assumed about them */
+__CPROVER_requires(XF_WIRED(relay) && XV_LEGS_OPEN && XV_COND_VALID && XF_MIRROR(relay) && XV_RELAY_GHOST_RANGE && XF_LEN_OK(relay))
+__CPROVER_requires(relay->running ? (XF_RUNNING_INV(relay) && XV_LEGS_LIVE) : XF_EV_OFF(relay))
+/* frame: NOT data, data_len (a held message survives), not the stream accounting */
+__CPROVER_assigns(xv_errno, xv_sb_calls, xv_legs[0].blocking, xv_legs[1].blocking, relay->src_event, relay->dst_event, relay->running, \
+                  xv_ev_pending, xv_ev_add_calls, xv_ev_assign_calls, xv_ev_add_failed, XF_COND_ASSIGNS(relay))
+__CPROVER_ensures(__CPROVER_return_value == 0 || __CPROVER_return_value == -1)
+/* PO[C20] xfwd_start.idempotent: starting a running direction does nothing */
+__CPROVER_ensures(__CPROVER_old(relay->running) ==> (__CPROVER_return_value == 0 && relay->running && XF_COND_SAME && XF_EV_SAME(relay) && XF_SAME(xv_sb_calls)))
+/* PO[C20] xfwd_start.interest_established: success => non-blocking legs, the interest that fits what is held, the other direction's bits untouched */
+__CPROVER_ensures(__CPROVER_return_value == 0 ==> (relay->running && XV_LEGS_LIVE && XF_INTEREST(relay) && XF_MIRROR(relay) && XV_COND_VALID))
+/* PO[C20] xfwd_start.other_direction_kept */
+__CPROVER_ensures(XF_OTHER_KEPT)
+/* PO[C20] xfwd_start.events_registered: success => both descriptors are watched and dispatch to xfwd_active with this xfwd (interest is not lost in the event loop) */
+__CPROVER_ensures(__CPROVER_return_value == 0 ==> (XF_EV_OK(relay) && (!__CPROVER_old(relay->running) ==> xv_ev_pending == __CPROVER_old(xv_ev_pending) + 2)))
+/* PO[C20] xfwd_start.failure_leaves_stopped: failure (a leg cannot be made non-blocking) => not running, nothing registered, nothing awaited anew */
+__CPROVER_ensures(__CPROVER_return_value == -1 ==> (!relay->running && XF_EV_OFF(relay) && XF_COND_SAME && XF_SAME(xv_ev_pending)))
+;
+
+static void xfwd_stop(struct xfwd *relay)
+__CPROVER_requires(XF_FRESH(relay) && XF_CONDS_FRESH(relay))
+__CPROVER_requires(XF_WIRED(relay) && XV_LEGS_OPEN && XV_COND_VALID && XF_MIRROR(relay) && XV_RELAY_GHOST_RANGE && XF_LEN_OK(relay))
+__CPROVER_requires(relay->running ? (XF_RUNNING_INV(relay) && XV_LEGS_LIVE) : XF_EV_OFF(relay))
+__CPROVER_assigns(relay->src_event, relay->dst_event, relay->running, xv_ev_pending, xv_ev_del_calls, XF_COND_ASSIGNS(relay))
+/* PO[C20] xfwd_stop.stopped: no event pending, this direction awaits nothing, the held message (data, data_len: frame) is kept */
+__CPROVER_ensures(!relay->running && XF_EV_OFF(relay) && XF_MIRROR(relay) && XV_COND_VALID && \
+                  (__CPROVER_old(relay->running) ? (XF_AWAIT_NONE && xv_ev_pending == __CPROVER_old(xv_ev_pending) - 2) : (XF_COND_SAME && XF_EV_SAME(relay))))
+/* PO[C20] xfwd_stop.other_direction_kept */
+__CPROVER_ensures(XF_OTHER_KEPT)
 ;
 
 #include "contracts/end.h"
